@@ -262,6 +262,8 @@ class ParametriseTransformation(Transformation):
                 else:
                     dic2p = {}
 
+        # Variable names may be spelled in any letter case in the source
+        dic2p = CaseInsensitiveDict(dic2p)
         vars2p = list(dic2p)
 
         # proceed if dictionary with mapping of variables to parametrised is not empty
@@ -270,10 +272,10 @@ class ParametriseTransformation(Transformation):
                 # rename arguments that are parametrised (to allow for sanity checks)
                 arguments = []
                 for arg in routine.arguments:
-                    if arg.name not in vars2p:
+                    if arg.name.lower() not in vars2p:
                         arguments.append(arg)
                     else:
-                        arguments.append(arg.clone(name=f'parametrised_{arg.name}'))
+                        arguments.append(arg.clone(name=f'parametrised_{arg.name.lower()}'))
                 routine.arguments = arguments
                 # introduce sanity check
                 for key, value in reversed(dic2p.items()):
@@ -299,7 +301,7 @@ class ParametriseTransformation(Transformation):
                         routine.body.prepend(conditional)
                         routine.body.prepend(ir.Comment(f"! Sanity check for parametrised variable: {key}"))
             else:
-                routine.arguments = [arg for arg in routine.arguments if arg.name not in vars2p]
+                routine.arguments = [arg for arg in routine.arguments if arg.name.lower() not in vars2p]
 
             # remove variables to be parametrised from all call statements
             call_map = {}
